@@ -50,6 +50,53 @@ def write_replay(pid, tag, content):
     return path
 
 
+def shrink(P, exe, model_ok, tier, fail, budget=40):
+    """Greedy line removal on the failing scenario: drop call lines (never the scenario, grid and
+    graph lines) as long as a failure of the same clause remains.  Every candidate is re-run through
+    the property's own runner (real code + model + oracle), so the shrunk replay is a genuine
+    failing input."""
+    import tempfile
+    text = fail.get("scenario_text") or ""
+    lines = [l for l in text.split("\n") if l.strip()]
+    if not lines or not lines[0].startswith("scn ") or lines[-1].strip() != "end":
+        return fail
+    head, body = lines[:1], lines[1:-1]
+    keep = [i for i, l in enumerate(body) if l.split()[0] in ("grid", "graph")]
+    if len(body) - len(keep) <= 1:
+        return fail
+    clause = fail["clause"]
+    tries = 0
+    best = fail
+
+    def attempt(cand):
+        nonlocal tries
+        tries += 1
+        with tempfile.NamedTemporaryFile("w", suffix=".scn", delete=False) as tf:
+            tf.write("\n".join(head + cand + ["end"]) + "\n")
+            path = tf.name
+        try:
+            res = P["runner"](P, exe, model_ok, random.Random(0), tier, replay=path)
+        finally:
+            os.unlink(path)
+        for g in res.get("fails", []):
+            if g["clause"] == clause:
+                return g
+        return None
+
+    i = len(body) - 1
+    while i >= 0 and tries < budget:
+        if body[i].split()[0] not in ("grid", "graph"):
+            cand = body[:i] + body[i + 1:]
+            g = attempt(cand)
+            if g is not None:
+                body, best = cand, g
+        i -= 1
+    if best is not fail:
+        best = dict(best)
+        best["witness"] = best["witness"] + " [shrunk from %d to %d lines in %d runs]" % (len(lines) - 2, len(body), tries)
+    return best
+
+
 def main():
     ap = argparse.ArgumentParser()
     ap.add_argument("prop")
@@ -150,6 +197,11 @@ def main():
             seen_known.add(k["id"])
             print("KNOWN-FINDING: property=%s %s (%s; e.g. %s)" % (pid, k["what"], k["id"], f["witness"][:160]))
     rc = 0
+    if new_fails and not args.replay and P.get("shrink", True):
+        try:
+            new_fails[0] = shrink(P, exe, model_ok, tier, new_fails[0])
+        except Exception as ex:  # shrinking is a convenience; the unshrunk replay stays valid
+            cov["shrink_error"] = "%s: %s" % (type(ex).__name__, ex)
     if new_fails:
         f = new_fails[0]
         body = "# property %s violated: clause=%s cause=%s\n# witness: %s\n# replay: python3 check.py %s --replay <this file>\n%s" % (
